@@ -43,6 +43,11 @@ CHECKS = {
          "DESIGN.md section 4 (C18)",
          "trusted: ref record scanner, RefMap.LastWrite as definition of the current record; Go QuickLZ decoder used only to identify compressed survivors; non-colliding keys",
          "offline checker over on-disk state after each observed GC pass (independent record scanner + write-history oracle)"),
+ "C13": ("exploration",
+         "C01/C02/C03 histories with 1..3 groups of 2..4 keys forced onto one key hash (in-package hash override); value, flags and liveness of every key judged against the reference map after every step; wrong reads are classified by whose bytes were returned (older own value / sibling's / another key's / never written). The unchanged tree violates this property in several ways that have no small repair; each family is a known finding with its own signature (known_findings.json), anything else - in particular a foreign value or any anomaly before the first restart/GC - is reported.",
+         "DESIGN.md section 4 (C13) and section 12",
+         "colliding keys: revision 0 only, versions not compared, check_vhash off; after the first anomaly of a colliding key the model is re-synchronised with the observation and later anomalies of that key count as follow-ups",
+         "reference-model monitor with same-hash key groups (hash override), wrong-read classifier"),
 }
 
 NOT_YET = {
